@@ -31,6 +31,14 @@ Fixpoint zrow_eqb (a b : list Z) : bool :=
 Fixpoint zrows_eqb (a b : list (list Z)) : bool :=
   match a, b with [], [] => true | x :: a', y :: b' => zrow_eqb x y && zrows_eqb a' b' | _, _ => false end.
 (* (writer model produces exactly the written text, reader model decodes the written text to the rows) *)
+Fixpoint lb_eqb (a b : list bytes) : bool :=
+  match a, b with [], [] => true | x :: a', y :: b' => list_eqb x y && lb_eqb a' b' | _, _ => false end.
+Fixpoint llb_eqb (a b : list (list bytes)) : bool :=
+  match a, b with [], [] => true | x :: a', y :: b' => lb_eqb x y && llb_eqb a' b' | _, _ => false end.
+(* tables: (writer model reproduces the written file from its cells, reader model splits the file into these cells) *)
+Definition csvchk (names : list bytes) (rows : list (list bytes)) (file : bytes) : bool * bool :=
+  (list_eqb (write_table names rows) file,
+   match read_table file with Some (n, r) => lb_eqb n names && llb_eqb r rows | None => false end).
 Definition wr (bo : border) (t : vtype) (nc : N) (rows : list (list Z)) (text : bytes) : bool * bool :=
   (list_eqb (write_data_array bo t nc rows) text,
    match read_written_array bo t nc text with Some r => zrows_eqb r rows | None => false end).
@@ -423,7 +431,7 @@ def gen_table(rng):
     return {"cols": cols, "rows": n}
 
 
-def table_roundtrip(cols, base):
+def table_roundtrip(cols, base, keep=None):
     from fieldcompare.tabular import Table, TabularFields
     from fieldcompare.io import write, read_field_data
     n = len(cols[0][2])
@@ -434,6 +442,8 @@ def table_roundtrip(cols, base):
         warnings.simplefilter("ignore")
         try:
             path = write(TabularFields(Table(num_rows=n), data), base)
+            if keep is not None:
+                keep.append(open(path, "rb").read())
             fd = read_field_data(path, {"dsv": {"delimiter": ",", "use_names": True}})
             got = [(f.name, np.asarray(f.values)) for f in fd]
             rows = fd.domain.number_of_rows
@@ -462,11 +472,25 @@ def table_roundtrip(cols, base):
 def table_stream(ctx, n):
     rng = ctx.rng
     base = os.path.join(str(ctx.workdir), "tab")
+    exprs, owners = [], []
     for _ in range(n):
         if G.too_many(ctx):
             break
         tb = gen_table(rng)
-        bad = table_roundtrip(tb["cols"], base)
+        keep = []
+        bad = table_roundtrip(tb["cols"], base, keep)
+        if keep and not bad and len(exprs) < (400 if ctx.tier == "quick" else 4000):
+            import csv
+            import io
+            parsed = list(csv.reader(io.StringIO(keep[0].decode("utf-8")), delimiter=",", quoting=csv.QUOTE_NONE))
+            if parsed and [c[0] for c in tb["cols"]] == parsed[0] and len(parsed) - 1 == tb["rows"]:
+                names = lib.clist([G.hx(x.encode("utf-8")) for x in parsed[0]], "bytes")
+                rows = lib.clist([lib.clist([G.hx(x.encode("utf-8")) for x in r], "bytes") for r in parsed[1:]], "(list bytes)")
+                exprs.append(f"csvchk {names} {rows} {G.hx(keep[0])}")
+                owners.append(tb)
+            else:
+                ctx.violation("E4", "csv round trip: the written file does not have one line of names and one line per row for a strict "
+                              "csv parser", tb, impl=parsed[:3])
         ctx.case(tb, len(tb["cols"]) >= 2, sample={"table": tb, "result": "as written" if not bad else bad[:2]})
         ctx.count("scenario:table")
         for c in tb["cols"]:
@@ -474,6 +498,14 @@ def table_stream(ctx, n):
         ctx.traces_validated += 1
         if bad:
             ctx.violation("E4", "csv round trip: " + "; ".join(bad)[:260], tb, impl=bad)
+    vals = ctx.coq_eval(HEADER, exprs, shard=max(10, len(exprs) // 12 + 1), name="c13csv")
+    for tb, v in zip(owners, vals):
+        ctx.tie("T2 write_table model = written csv file")
+        ctx.tie("T2 read_table model splits the written csv file into the written cells")
+        if v[0] is not True:
+            ctx.violation("E2", "write_table model != written csv file", tb, found_input=False)
+        if v[1] is not True:
+            ctx.violation("E2", "read_table model does not recover names and cells of the written csv file", tb, found_input=False)
     # directed probes at the edge of what a csv file can carry (each is one finding class when it fails)
     probes = [
         (WHAT_NAMES, [["a b", "float", [1.5, 2.25]], ["c-d", "int", [1, 2]], ["e.f", "str", ["x", "yz"]]]),
@@ -498,9 +530,9 @@ def run(ctx):
     ctx.prove()
     quick = ctx.tier == "quick"
     ctx.extra["model_budget"] = 6000 if quick else 60000
-    mesh_stream(ctx, 2400 if quick else 20000)
+    mesh_stream(ctx, 2400 if quick else 50000)
     ctx.extra.pop("model_budget", None)
-    table_stream(ctx, 1200 if quick else 8000)
+    table_stream(ctx, 1200 if quick else 20000)
     ctx.rule = ("mesh field data from the public API (1-3 space dimensions, 1-3 cell types of 12 kinds, point/cell fields of 10 dtypes, "
                 "scalar/vector/tensor/(n,1) shapes, extreme values), plain / sorted / stripped / extended / merged / diffed / read from LE and BE "
                 "files / rewritten; tables with float / int / str columns.  non-trivial = at least one field or a transformation")
